@@ -1,0 +1,10 @@
+// Copyright 2024 RunReveal Inc.
+// SPDX-License-Identifier: Apache-2.0
+
+//go:build !verif
+
+package pql
+
+// verifPoint marks a linearization point for the verification harness.
+// It does nothing unless the package is built with the "verif" tag.
+func verifPoint(string) {}
